@@ -1,0 +1,41 @@
+//go:build verif
+
+package core
+
+import (
+	"sync/atomic"
+	"time"
+)
+
+// Verification hooks (build tag `verif` only, add-only): let an external harness
+// place write-cache flushes and GC runs at chosen points instead of waiting for
+// the 1s timer of Run.
+
+// VerifSetPersistInterval overrides the persist timer interval used by Run.
+// It must be called before Run is started.
+func VerifSetPersistInterval(d time.Duration) {
+	persistInterval = d
+}
+
+// VerifPersist performs exactly one flush of the write cache (one persist()).
+func (bc *Blockchain) VerifPersist() error {
+	_, err := bc.persist()
+	return err
+}
+
+// VerifPersistAndGC performs the body of one timer tick of Run: one flush
+// followed by a GC attempt when RemoveUntraceableBlocks is on.
+func (bc *Blockchain) VerifPersistAndGC() error {
+	var oldPersisted uint32
+	if bc.config.RemoveUntraceableBlocks {
+		oldPersisted = atomic.LoadUint32(&bc.persistedHeight)
+	}
+	_, err := bc.persist()
+	if err != nil {
+		return err
+	}
+	if bc.config.RemoveUntraceableBlocks {
+		bc.tryRunGC(oldPersisted)
+	}
+	return nil
+}
